@@ -24,7 +24,8 @@ type RetainedCase struct {
 
 func checkRetained(ctx *pbt.Ctx, c RetainedCase) error {
 	m := c.Tx
-	tx := ref.ToLib(m)
+	tx, via := ref.ToLibVia(m)
+	ctx.Label("object=" + via)
 	type kept struct {
 		pre, hash, wantPre, wantHash []byte
 		idx, ht                      int
